@@ -11,6 +11,9 @@ package gostatsd
 //@   trusted
 //@   modifies everything
 //@   preserves lexer.Lexer, pool.MetricPool, statsd.DatagramParser
+// EstimatedTags is a getter (assumed not to modify anything).
+//@ func (PipelineHandler).EstimatedTags
+//@   trusted
 
 // ---- metric maps ----------------------------------------------------------------------------------
 // Well-formed nested maps: every outer key holds a non-nil inner map.
@@ -373,3 +376,45 @@ package gostatsd
 //@   trusted
 //@   modifies everything
 //@   preserves cloudprovider.cloudProviderLookupDispatcher
+
+// ---- matcher.go (C10): exact / prefix / regular-expression patterns, each optionally inverted ----
+// matchSpec is the documented meaning of one pattern; anyMatch of a pattern list.
+//@ pred matchSpec(sm StringMatch, s string) := ite(sm.regex != nil, regexMatch(sm.regex, s) != sm.invertMatch, ite(sm.prefixMatch, hasPrefix(s, sm.test) != sm.invertMatch, (s == sm.test) != sm.invertMatch))
+// (quantifiers range over absolute positions of the backing array: at(s, k) is s's array at position k)
+//@ pred anyMatch(sml StringMatchList, s string) := exists k int :: off(sml) <= k && k < off(sml) + len(sml) && matchSpec(at(sml, k), s)
+//@ pred anyMatchMulti(sml StringMatchList, tests []string) := exists j int :: off(tests) <= j && j < off(tests) + len(tests) && anyMatch(sml, at(tests, j))
+
+//@ func (StringMatch).Match
+//@   ensures result == matchSpec(sm, s)
+//@ func (StringMatchList).MatchAny
+//@   ensures result ==> anyMatch(sml, s)
+//@   ensures !result ==> !anyMatch(sml, s)
+//@   loop 1 invariant forall k int :: off(sml) <= k && k <= off(sml) + rangeindex ==> !matchSpec(at(sml, k), s)
+//@ func (StringMatchList).MatchAnyMultiple
+//@   ensures result ==> anyMatchMulti(sml, tests)
+//@   ensures !result ==> !anyMatchMulti(sml, tests)
+//@   loop 1 invariant forall j int :: off(tests) <= j && j <= off(tests) + rangeindex ==> !anyMatch(sml, at(tests, j))
+
+// NewStringMatch decodes the pattern syntax: leading '!' inverts, then 'regex:' introduces a
+// regular expression, otherwise a trailing '*' makes it a prefix pattern, otherwise exact.
+//@ pred afterBang(s string) := ite(hasPrefix(s, "!"), s[1:], s)
+//@ func NewStringMatch
+//@   ensures result.invertMatch == hasPrefix(s, "!")
+//@   ensures (result.regex != nil) == hasPrefix(afterBang(s), "regex:")
+//@   ensures result.regex == nil ==> result.prefixMatch == hasSuffix(afterBang(s), "*")
+//@   ensures result.regex != nil ==> !result.prefixMatch && result.test == afterBang(s)[6:]
+//@   ensures result.regex == nil && result.prefixMatch ==> result.test == afterBang(s)[0:len(afterBang(s))-1]
+//@   ensures result.regex == nil && !result.prefixMatch ==> result.test == afterBang(s)
+//@   may_panic
+
+// ---- metrics.go: the key of a series inside its per-name map (C07/C10) ----
+// tagsKeyOf: the comma-joined (sorted) tags, followed by ",s:<source>" when the source is not empty
+//@ pred tagsKeyOf(source Source, tags Tags) := ite(source == "", join(tags, ","), join(tags, ",") + "," + "s" + ":" + source)
+//@ pred hasTag(x string, t Tags) := exists k int :: off(t) <= k && k < off(t) + len(t) && at(t, k) == x
+// FormatTagsKey sorts the tags in place (a permutation) and returns the key of the sorted tags.
+//@ func FormatTagsKey
+//@   ensures result == tagsKeyOf(source, tags)
+//@   ensures [perm] forall k int :: off(tags) <= k && k < off(tags) + len(tags) ==> hasTag(old(at(tags, k)), tags)
+//@   ensures [perm] forall k int :: off(tags) <= k && k < off(tags) + len(tags) ==> (exists m int :: off(tags) <= m && m < off(tags) + len(tags) && old(at(tags, m)) == at(tags, k))
+//@   ensures [perm] old(forall i int, j int :: off(tags) <= i && i < j && j < off(tags) + len(tags) ==> at(tags, i) != at(tags, j)) ==> (forall i int, j int :: off(tags) <= i && i < j && j < off(tags) + len(tags) ==> at(tags, i) != at(tags, j))
+//@   modifies tags[*]
